@@ -87,6 +87,14 @@ pub fn serialize(nodes: &[Node], out: &mut String) {
                     }
                 }
                 out.push_str(&e.tail_ws);
+                if e.kind == Kind::SelfClosing && e.tail_ws.is_empty() {
+                    // `<x a=v/>`: per HTML the slash would belong to the unquoted value
+                    if let Some(a) = e.attrs.last() {
+                        if a.value.is_some() && a.quote == 0 {
+                            out.push(' ');
+                        }
+                    }
+                }
                 match e.kind {
                     Kind::SelfClosing => out.push_str("/>"),
                     Kind::Void => out.push('>'),
@@ -296,6 +304,13 @@ fn gen_raw_elem(rng: &mut Rng, o: &GenOpts, tag: &str) -> Elem {
         _ => rng.pick_str(TEXTAREA_BODIES),
     };
     let body = if !o.multibyte { body.replace('é', "e").replace('→', "->") } else { body };
+    // for the reference model (C15) the raw text must really be the element's whole content:
+    // no text that the HTML tokenization rules take for the element's end tag
+    let body = if o.unique_path_tags && body.to_ascii_lowercase().contains(&format!("</{tag}")) {
+        "x = 1;".to_string()
+    } else {
+        body
+    };
     let (st, end) = case_tag(rng, o, tag);
     Elem {
         tag: st,
